@@ -161,7 +161,21 @@ def replay_corpus(rep):
 
 def _replay_dict(d, rep, path):
     c = d['case']
-    if 'corpus_file' in c:
+    if c.get('probe'):
+        # a hand-built well-formed message of a recorded finding: it must decode (values per the probe file)
+        out = Outcome()
+        out.nontrivial = True
+        o = sut.call(decoder().process, bytes.fromhex(c['bytes_hex']))
+        if not o.ok:
+            out.fail('decode raised %s@%s' % (o.exc_type, o.frame), error=o.msg, probe=c['probe'])
+        else:
+            ob = sut.observe(o.value)
+            if ob['labels'][0] != c['expected_labels']:
+                out.fail('descriptor labels differ', got=ob['labels'][0], expected=c['expected_labels'], probe=c['probe'])
+            elif first_value_diff(ob['values'][0], c['expected_values']) is not None:
+                out.fail('decoded value differs from (raw+ref)/10^scale', got=ob['values'][0], expected=c['expected_values'],
+                         probe=c['probe'])
+    elif 'corpus_file' in c:
         case, out, excl = check_corpus((c['corpus_file'], c['message_index'], bytes.fromhex(c['bytes_hex'])))
     else:
         case = gmsg.Case.from_json(c)
@@ -185,4 +199,9 @@ def replay(path):
     return 1 if rep.failures else 0
 
 
-SIGNATURES = {}
+def _k1(clause, f):
+    return (isinstance(f.get('case'), dict) and f['case'].get('probe') == 'K1'
+            and ('KeyError@templatedata.py:wire_bitmap_attribute' in clause or 'descriptor labels differ' in clause))
+
+
+SIGNATURES = {'marker_operator_under_open_204': _k1}
